@@ -1,0 +1,23 @@
+//go:build verif
+// +build verif
+
+package ed25519
+
+import "com.tuntun.rangers/node/src/common/ed25519/edwards25519"
+
+// Verification hook H5: exports of the VRF building blocks so that an external
+// harness can act as an adversarial prover. Nothing here changes behaviour.
+
+func VerifExpandSecret(sk PrivateKey) (x *[32]byte, truncatedHashedSK *[32]byte) {
+	return expandSecret(sk)
+}
+
+func VerifHashToCurve(m []byte, pk PublicKey) [32]byte { return hashToCurve(m, pk) }
+
+func VerifHashPoints(p1, p2, p3, p4 edwards25519.ExtendedGroupElement) [16]byte {
+	return hashPoints(p1, p2, p3, p4)
+}
+
+func VerifNonceGeneration(truncatedHashedSK [32]byte, h [32]byte) *[32]byte {
+	return vrfNonceGeneration(truncatedHashedSK, h)
+}
